@@ -108,7 +108,9 @@ def gen_family(ctx, conc, f, procs, jobs):
         tot['scripts'] += c['after_symmetry']; tot['explored'] += len(legs); tot['completed'] += len(complete)
         tot['executions'] += sum(int(l.get('executions', 0)) for l in legs); tot['single'] += sum(1 for o in outs if o <= 1)
         # vacuity guard: a family whose scripts all have one outcome collides with nothing
-        if len(complete) >= 8 and max(outs) <= 1 and not nviol:
+        if len(complete) >= 8 and max(outs) <= 1 and not nviol and len(complete) < c['after_symmetry']:
+            ctx.notes.append('family %s on %s: the %d scripts explored before the budget cut all have a single outcome (vacuity is only judged on a completely explored family)' % (f['label'], m, len(complete)))
+        elif len(complete) >= 8 and max(outs) <= 1 and not nviol:
             ctx.broken.append('family %s on %s: every one of the %d explored scripts has a single outcome: the alphabet collides with nothing' % (f['label'], m, len(complete)))
     sys.stderr.write('C08 family %s (bound %d, %d modules): %d scripts, explored %d (complete %d), %d schedules, %d single-outcome scripts, %.1fs\n'
                      % (f['label'], f['bound'], len(mods), tot['scripts'], tot['explored'], tot['completed'], tot['executions'], tot['single'], time.time() - t0))
